@@ -325,6 +325,11 @@ where
                 let rx_packet = RxPacket::Pubrec(pubrec);
                 let action_id = utils::rx_action_id(&rx_packet);
 
+                // The PUBLISH has been received: it must not be sent again when the session is
+                // resumed (the PUBREL that follows a successful PUBREC is queued on its own).
+                utils::linear_search_by_key(&session.retrasmit_queue, action_id)
+                    .and_then(|pos| session.retrasmit_queue.remove(pos));
+
                 if let Some((_, sender)) =
                     utils::linear_search_by_key(&session.awaiting_ack, action_id)
                         .and_then(|pos| session.awaiting_ack.remove(pos))
